@@ -463,3 +463,123 @@ func vfC17Foundations(e *vfEnv, r *vfResult) {
 	}
 	r.count("foundation_keys", int64(len(byKey)))
 }
+
+// vfC17Live: real agents over the simulated network; after every step each listed pair's priority must be the formula's
+// value for the agent's current role (also after a role switch forced by a role conflict), and once both sides have
+// converged, mirrored pairs carry the same number on both agents and are ordered identically.
+func vfC17Live(e *vfEnv, r *vfResult, idx int) { //nolint:cyclop
+	s := newVfSession(e, r, idx, "c17live")
+	defer s.closeAll()
+	t := vfGenTopo(s)
+	sameRole := idx%2 == 0
+	bothControlling := s.rng.IntN(2) == 0
+	roleA, roleB := true, false
+	if sameRole {
+		t.Unreach = nil // NATs stay: server-reflexive / peer-reflexive candidates give the pairs unequal priorities
+		roleA, roleB = bothControlling, bothControlling
+	}
+	ta, tb := 1+s.rng.Uint64N(1<<62), 1+s.rng.Uint64N(1<<62)
+	if ta == tb {
+		tb++
+	}
+	s.desc["topology"], s.desc["same_role_start"], s.desc["both_controlling"] = t, sameRole, bothControlling
+	// remote candidates may be signalled before Dial/Accept decide the role: those pairs exist before the role is known
+	var pending []vfPendingSignal
+	var err error
+	preSignalled := -1
+	if s.rng.IntN(2) == 0 {
+		s.beforeStart = func() {
+			if pending, err = s.signalList(t); err != nil {
+				return
+			}
+			preSignalled = s.rng.IntN(len(pending) + 1)
+			for _, p := range pending[:preSignalled] {
+				p.to.addRemote(p.cand)
+			}
+			pending = pending[preSignalled:]
+		}
+	}
+	if err := s.setupPair(t, vfSideCfg{MaxBinding: 1000, TieBreaker: ta}, vfSideCfg{MaxBinding: 1000, TieBreaker: tb}, roleA, roleB); err != nil {
+		r.inconclusive(1)
+
+		return
+	}
+	if preSignalled < 0 {
+		pending, err = s.signalList(t)
+	}
+	if err != nil {
+		r.inconclusive(1)
+
+		return
+	}
+	s.afterStep()
+	budget := map[*vfSide]int{s.A: 30, s.B: 30}
+	s.chaos(s.rng.IntN(120), budget, &pending, true)
+	s.fairSuffix(&pending, 16, func() bool { ok, _ := s.bothConnectedMirror(); return ok && len(s.sw.inflightIDs()) == 0 })
+	if s.broken != "" {
+		r.inconclusive(1)
+
+		return
+	}
+	sa, sb := s.A.snapshot(), s.B.snapshot()
+	if sa.Err != nil || sb.Err != nil {
+		r.inconclusive(1)
+
+		return
+	}
+	switched := sameRole && sa.Controlling != sb.Controlling
+	r.distinct(fmt.Sprintf("live/same=%v/both=%v/switched=%v/presignalled=%d/pairsA=%d/pairsB=%d", sameRole, bothControlling, switched, preSignalled, len(sa.Pairs), len(sb.Pairs)))
+	if switched {
+		r.count("c17_live_sessions_with_role_switch", 1)
+	}
+	if sa.Controlling == sb.Controlling {
+		return // roles unresolved (C05's business): mirrored numbers are only promised for opposite roles
+	}
+	// mirrored pairs: A's (l, r) and B's (l', r') with l == r' and r == l' as transport addresses AND candidate priorities
+	type key struct{ a, b string }
+	bPairs := map[key]vfPairSnap{}
+	for _, p := range sb.Pairs {
+		bPairs[key{p.Remote, p.Local}] = p
+	}
+	type both struct{ pa, pb uint64 }
+	var mirrored []both
+	for _, p := range sa.Pairs {
+		q, ok := bPairs[key{p.Local, p.Remote}]
+		if !ok || q.RPrio != p.LPrio || q.LPrio != p.RPrio || p.PrioOverride || q.PrioOverride {
+			continue // the peer knows this address under another priority (peer-reflexive vs signalled): not a mirrored pair
+		}
+		r.eval(1)
+		r.count("c17_live_mirrored_pairs", 1)
+		if p.Prio != q.Prio {
+			s.viol("C17", "live-mirrored-pair-priority-differs", fmt.Sprintf("pair %s <-> %s (candidate priorities %d / %d): A computes %d, B computes %d", p.Local, p.Remote, p.LPrio, p.RPrio, p.Prio, q.Prio),
+				map[string]any{"pair": p.Local + "|" + p.Remote, "a_priority": fmt.Sprint(p.Prio), "b_priority": fmt.Sprint(q.Prio), "a_controlling": sa.Controlling})
+
+			return
+		}
+		mirrored = append(mirrored, both{p.Prio, q.Prio})
+	}
+	for i := range mirrored {
+		for j := range mirrored {
+			if (mirrored[i].pa < mirrored[j].pa) != (mirrored[i].pb < mirrored[j].pb) {
+				s.viol("C17", "live-pair-order-differs", "two mirrored pairs are ordered differently on the two agents", nil)
+
+				return
+			}
+		}
+	}
+	if idx < 3 {
+		r.sample(map[string]any{"idx": idx, "kind": "live session", "same_role_start": sameRole, "role_switch_observed": switched, "mirrored_pairs": len(mirrored), "steps": s.stepN})
+	}
+}
+
+func TestVerifC17Live(t *testing.T) {
+	vfRun(t, "C17", func(e *vfEnv, r *vfResult) {
+		n := e.n(800, 40000)
+		for i := 0; i < n; i++ {
+			if e.only >= 0 && i != e.only {
+				continue
+			}
+			vfC17Live(e, r, i)
+		}
+	})
+}
